@@ -656,6 +656,7 @@ func (s *Subscription) processCollectionEvent(event *rescache.ResourceEvent) {
 					return
 				}
 
+				verifSub("sub.event", s)
 				ref.pending = false
 				r := sub.GetRPCResources(true)
 				s.c.Send(rpc.NewEvent(s.rid, event.Event, rpc.AddEvent{Idx: idx, Value: v.RawMessage, Resources: r}))
@@ -772,6 +773,7 @@ func (s *Subscription) processModelEvent(event *rescache.ResourceEvent) {
 					return
 				}
 
+				verifSub("sub.event", s)
 				for _, sub := range subs {
 					s.refs[sub.rid].pending = false
 				}
